@@ -13,6 +13,7 @@ import sys
 import numpy as np
 
 from c04 import bf, fb, make_waves, parse_c, pick_pixels, precision
+from c04 import gt, nan_selftest
 from common import Ctx, LeanDriver, Property, run_property
 
 
@@ -29,7 +30,8 @@ def gen_case(ctx: Ctx):
                 tilt=rng.choice([[round(rng.uniform(-mag, mag), 3), rng.choice([0.0, round(rng.uniform(-mag, mag), 3)])],
                                  [t0, -t0], [t0, t0]]),
                 order=rng.choice([1, 1, 2]), wseed=rng.randint(0, 10 ** 6), precision=rng.choice(["float64", "float64", "float32"]),
-                kind=rng.choice(["shift", "shift", "axes", "planewave", "multislice", "mixed", "mixed", "api", "api"]),
+                kind=rng.choice(["shift", "shift", "axes", "planewave", "multislice", "mixed", "mixed", "api", "api", "cache", "member", "member"]),
+                lazy=rng.random() < 0.4,
                 base=rng.choice([[0.0, 0.0], [round(rng.uniform(-mag, mag), 3), round(rng.uniform(-mag, mag), 3)],
                                  [round(rng.uniform(-mag, mag), 3), 0.0], [0.0, round(rng.uniform(-mag, mag), 3)], [t0, -t0], [-t0, t0]]),
                 axes=[rng.choice(["pair", "x", "y", "plain"]) for _ in range(rng.randint(1, 2))],
@@ -67,8 +69,9 @@ class C39(Property):
         "tied by pixel-wise correspondence",
     ]
     assumptions = ["FFT (inverse pair)", "IEEE rounding within tolerance", "small-angle model of the code itself: the shift is dz·tan(t/1000)"]
-    rule = ("random grids 4..20 px, samplings, energies, distances of both signs, tilts up to ±60 mrad (x only or both), orders 1/2, "
-            "float32/float64; kinds: shift equivalence (both orders), per-axis vs pair tilt axes, plane wave, full multislice through vacuum")
+    rule = ("random grids 4..20 px, samplings, energies, distances of both signs, tilts up to ±60 mrad (x only, both, equal, opposite), orders 1/2, "
+            "float32/float64; kinds: shift, axes (per-axis vs pair), planewave, multislice through vacuum, mixed (base tilt + tilt axes), api (public builders, "
+            "eager and lazy max_batch=1), cache (one propagator over a history), member (selection of ensemble members)")
 
     def correspondence(self, ctx: Ctx):
         from abtem.core.axes import AxisAlignedTiltAxis, TiltAxis
@@ -191,24 +194,24 @@ class C39(Property):
                 plain = prop(psi, (0.0, 0.0))
                 e1 = rel(tilted, np.asarray(fft_shift(plain.astype(cdt), shift_px), dtype=np.complex128))
                 e2 = rel(tilted, prop(np.asarray(fft_shift(psi, shift_px)), (0.0, 0.0)))
-                if e1 > tol:
+                if gt(e1, tol):
                     ctx.violation("tilted-propagation-differs-from-propagate-then-shift", case, dict(rel_err=e1, shift_pixels=shift_px.tolist()))
-                if e2 > tol:
+                if gt(e2, tol):
                     ctx.violation("tilted-propagation-differs-from-shift-then-propagate", case, dict(rel_err=e2))
             elif case["kind"] == "axes":
                 a = prop(psi[None, None], (0.0, 0.0), [AxisAlignedTiltAxis(values=(tx,), direction="x"), AxisAlignedTiltAxis(values=(ty,), direction="y")])
                 b = prop(psi[None], (0.0, 0.0), [TiltAxis(values=((tx, ty),))])
                 c = prop(psi, (tx, ty))
                 e1, e2 = rel(a.reshape(gpts), c), rel(b.reshape(gpts), c)
-                if e1 > tol:
+                if gt(e1, tol):
                     ctx.violation("per-axis-tilt-axes-differ-from-base-tilt-pair", case, dict(rel_err=e1))
-                if e2 > tol:
+                if gt(e2, tol):
                     ctx.violation("pair-tilt-axis-differs-from-base-tilt-pair", case, dict(rel_err=e2))
             elif case["kind"] == "planewave":
                 pw = abtem.PlaneWave(gpts=gpts, sampling=sampling, energy=case["energy"], tilt=(tx, ty)).build(lazy=False)
                 out = np.asarray(FresnelPropagator().propagate(pw, thickness=dz, in_place=False, order=order).array)
                 dev = float(np.abs(np.abs(out) - 1).max())
-                if dev > (1e-9 if prec == "float64" else 1e-4):
+                if gt(dev, (1e-9 if prec == "float64" else 1e-4)):
                     ctx.violation("tilted-planewave-loses-unit-modulus-in-vacuum", case, dict(max_dev=dev))
             elif case["kind"] == "mixed":
                 # pre-tilted waves (scalar base tilt) carrying tilt ensemble axes: every member must equal the untilted
@@ -225,9 +228,9 @@ class C39(Property):
                             tans += np.tan(np.array(m[k]) / 1e3)
                     exp = np.asarray(fft_shift(plain.astype(cdt), dz * tans / np.array(sampling)), dtype=np.complex128)
                     e = rel(out[idx], exp)
-                    if e > worst:
+                    if gt(e, worst):
                         worst, where = e, list(idx)
-                if worst > tol * 3:
+                if gt(worst, tol * 3):
                     kinds = "+".join(sorted(set(case["axes"])))
                     ctx.violation(f"base-tilt-plus-tilt-axes-differs-from-total-shift:{'base-set' if case['base'] != [0.0, 0.0] else 'base-zero'}:{kinds}",
                                   case, dict(rel_err=worst, member=where))
@@ -248,25 +251,94 @@ class C39(Property):
                     tilt = (from_values(v[0][:2]), from_values(v[1][:2]))
                     members = [((a, b), (i, j)) for i, a in enumerate(v[0][:2]) for j, b in enumerate(v[1][:2])]
 
-                def build(t):
+                def build(t, lazy=False):
+                    kw = dict(lazy=True, max_batch=1) if lazy else dict(lazy=False)
                     if case["builder"] == "probe":
-                        return abtem.Probe(semiangle_cutoff=25.0, gpts=gpts, sampling=sampling, energy=case["energy"], tilt=t).build(lazy=False)
-                    return abtem.PlaneWave(gpts=gpts, sampling=sampling, energy=case["energy"], tilt=t).build(lazy=False)
+                        w = abtem.Probe(semiangle_cutoff=25.0, gpts=gpts, sampling=sampling, energy=case["energy"], tilt=t).build(**kw)
+                    else:
+                        w = abtem.PlaneWave(gpts=gpts, sampling=sampling, energy=case["energy"], tilt=t).build(**kw)
+                    return w
 
                 def go(w):
                     if case["builder"] == "planewave":  # give the plane wave some structure so that a shift is visible
                         w = w.copy()
-                        w._array = np.asarray(w.array) * psi
-                    return np.asarray(FresnelPropagator().propagate(w, thickness=dz, in_place=False, order=order).array, dtype=np.complex128)
+                        w._array = w.array * psi
+                    out = FresnelPropagator().propagate(w, thickness=dz, in_place=False, order=order)
+                    return np.asarray(out.compute().array if out.is_lazy else out.array, dtype=np.complex128)
 
-                ens = go(build(tilt))
+                ens = go(build(tilt, lazy=case.get("lazy", False)))
                 worst, where = 0.0, None
                 for t, idx in members:
                     e = rel(ens[idx], go(build(t)))
-                    if e > worst:
+                    if gt(e, worst):
                         worst, where = e, [list(t), list(idx)]
-                if worst > tol * 3:
+                if gt(worst, tol * 3):
                     ctx.violation(f"ensemble-tilt-member-differs-from-scalar-tilt:{case['api']}", case, dict(rel_err=worst, member=where))
+            elif case["kind"] == "cache":
+                # ONE FresnelPropagator instance over a history of tilts / ensemble-axis layouts / orders / distances: the cached
+                # kernel must never be reused for other parameters (compare every call with a fresh instance)
+                from abtem.core.axes import OrdinalAxis
+
+                shared = FresnelPropagator()
+                v = case["values"]
+                pair = TiltAxis(values=((v[0][0], v[0][1]), (v[0][2], v[0][3])))
+                xax = AxisAlignedTiltAxis(values=(v[1][0], v[1][1]), direction="x")
+                plain = OrdinalAxis(values=(0, 1))
+                hist = [((tx, ty), [], order, dz), ((ty, tx), [], order, dz), ((tx, ty), [plain, pair], order, dz), ((tx, ty), [pair, plain], order, dz),
+                        ((tx, ty), [pair, plain], 3 - order, dz), ((0.0, 0.0), [xax, plain], 3 - order, dz), ((0.0, 0.0), [plain, xax], 3 - order, -dz),
+                        (tuple(case["base"]), [plain, xax], 3 - order, -dz)]
+                prev = None
+                for tl, axes, o, dzz in hist:
+                    shp = tuple(2 for _ in axes)
+                    arr = np.ascontiguousarray(np.broadcast_to(psi, shp + gpts)).astype(cdt)
+                    a = np.asarray(shared.propagate(make_waves(arr.copy(), case["energy"], sampling, tl, list(axes)), thickness=dzz, in_place=False, order=o).array)
+                    b = np.asarray(FresnelPropagator().propagate(make_waves(arr.copy(), case["energy"], sampling, tl, list(axes)), thickness=dzz, in_place=False, order=o).array)
+                    e = rel(a, b)
+                    if gt(e, tol):
+                        cur = (tl, tuple(type(x).__name__ for x in axes), o, dzz)
+                        changed = "first" if prev is None else "+".join(n for n, x, y in zip(("base-tilt", "axes-layout", "order", "thickness"), prev, cur) if x != y)
+                        ctx.violation(f"reused-propagator-differs-from-fresh-after-change-of:{changed}", case, dict(rel_err=e))
+                    prev = (tl, tuple(type(x).__name__ for x in axes), o, dzz)
+            elif case["kind"] == "member":
+                # member selection of a tilted ensemble through the public API: `ens[i]` must report base tilt + member tilt and
+                # propagate like a wave carrying exactly that tilt
+                from abtem.tilt import BeamTilt, BeamTilt2D
+                from abtem.distributions import from_values
+
+                v = case["values"]
+                base_w = abtem.Probe(semiangle_cutoff=25.0, gpts=gpts, sampling=sampling, energy=case["energy"], tilt=tuple(case["base"])).build(lazy=False)
+                if case["api"] in ("pairs", "both-dist"):
+                    members = [(v[0][0], v[1][0]), (v[0][1], v[1][1])]
+                    ens = BeamTilt(np.array(members)).apply(base_w)
+                    sel = [(i,) for i in range(2)]
+                elif case["api"] == "x-dist+y-fixed":
+                    members = [(v[0][0], 0.0), (v[0][1], 0.0)]
+                    ens = BeamTilt2D(from_values([m[0] for m in members]), 0.0).apply(base_w)
+                    sel = [(i,) for i in range(2)]
+                else:
+                    members = [(0.0, v[1][0]), (0.0, v[1][1])]
+                    ens = BeamTilt2D(0.0, from_values([m[1] for m in members])).apply(base_w)
+                    sel = [(i,) for i in range(2)]
+                if case["lazy"]:
+                    ens = ens.ensure_lazy()
+                for idx, mt in zip(sel, members):
+                    member = ens[idx[0]]
+                    if not case["lazy"]:
+                        # a selected member is a VIEW into the ensemble array; for complex64 and an odd pixel count it is only 8-byte
+                        # aligned and CachedFFTWConvolution raises 'Invalid input alignment' (FFT-backend robustness, outside C39,
+                        # noted in design/C39.md) — propagate an aligned copy
+                        member = member.copy()
+                    want = (case["base"][0] + mt[0], case["base"][1] + mt[1])
+                    got = tuple(float(t) for t in member.base_tilt)
+                    if gt(max(abs(got[0] - want[0]), abs(got[1] - want[1])), 1e-9):
+                        ctx.violation(f"selected-ensemble-member-reports-wrong-base-tilt:{case['api']}", case, dict(got=list(got), expected=list(want)))
+                    outm = np.asarray(FresnelPropagator().propagate(member.compute() if case["lazy"] else member, thickness=dz, in_place=False, order=order).array,
+                                      dtype=np.complex128)
+                    ref_w = abtem.Probe(semiangle_cutoff=25.0, gpts=gpts, sampling=sampling, energy=case["energy"], tilt=want).build(lazy=False)
+                    ref = np.asarray(FresnelPropagator().propagate(ref_w, thickness=dz, in_place=False, order=order).array, dtype=np.complex128)
+                    e = rel(outm, ref)
+                    if gt(e, tol * 3):
+                        ctx.violation(f"selected-ensemble-member-propagates-unlike-its-reported-tilt:{case['api']}", case, dict(rel_err=e, member=list(idx)))
             else:  # full multislice through an empty potential: tilted == untilted then shifted by total thickness
                 from abtem.potentials.iam import PotentialArray
 
@@ -283,15 +355,24 @@ class C39(Property):
                 tot = nsl * abs(dz)
                 spx = np.array([tot * np.tan(tx / 1e3) / sampling[0], tot * np.tan(ty / 1e3) / sampling[1]])
                 e = rel(out_t, np.asarray(fft_shift(out_0.astype(cdt), spx), dtype=np.complex128))
-                if e > tol * 3:
+                if gt(e, tol * 3):
                     ctx.violation("tilted-multislice-through-vacuum-differs-from-shifted-untilted", case, dict(rel_err=e, shift_pixels=spx.tolist()))
-        ctx.count(f"{case['kind']}:{prec}:order{order}" + (f":{case['api']}:{case['builder']}" if case["kind"] == "api" else ""))
+        ctx.count(f"{case['kind']}:{prec}:order{order}" + (":lazy" if case.get("lazy") and case["kind"] in ("api", "member") else "") + (f":{case['api']}:{case['builder']}" if case["kind"] == "api" else ""))
 
     def conformance(self, ctx: Ctx):
         for _ in range(ctx.n(60, 800)):
             case = gen_case(ctx)
             self.oracle(ctx, case)
             ctx.case(case)
+        self.selftest(ctx)
+
+    def selftest(self, ctx: Ctx):
+        import abtem.multislice as ms
+
+        for kind in ("shift", "axes", "planewave", "multislice", "mixed", "api"):
+            case = gen_case(ctx)
+            case.update(kind=kind, precision="float64", tilt=[7.0, -3.0], base=[4.0, 2.0])
+            nan_selftest(ctx, "tilt", [(ms, "_apply_tilt_to_fresnel_propagator_array", False)], [(kind, lambda c, case=case: self.oracle(c, case))])
 
     def replay(self, ctx: Ctx, case):
         self.oracle(ctx, case)
